@@ -2220,13 +2220,21 @@ func (m *repoManager) newData(uuid dvid.UUID, t TypeService, name dvid.InstanceN
 		return nil, err
 	}
 
+	r.Lock()
+	if _, found := r.data[name]; found {
+		// another request created this name since the check above
+		r.Unlock()
+		return nil, fmt.Errorf("Data named %q already exists in repo (root %s)", name, r.uuid)
+	}
+	r.data[name] = dataservice
+	r.Unlock()
+
 	m.idMutex.Lock()
 	m.iids[id] = dataservice
 	m.dataByUUID[dataservice.DataUUID()] = dataservice
 	m.idMutex.Unlock()
 
 	r.Lock()
-	r.data[name] = dataservice
 	tm := time.Now()
 	r.updated = tm
 	msg := fmt.Sprintf("New data instance %q of type %q with config %v", name, dataservice.TypeName(), c)
